@@ -336,7 +336,7 @@ func TestC09(t *testing.T) {
 
 	// R3 over methods that share every type pair: whatever one method leaves behind in the run (a cached decision, a
 	// shared option list, a name table) shows in a neighbour that differs from it in one notation
-	rapidRun(t, env, "shared-types", env.Pick(400, 12000), func(rt *rapid.T) {
+	rapidRun(t, env, "shared-types", env.Pick(400, 4000), func(rt *rapid.T) {
 		p := genC09Shared(rt)
 		files := p.Files()
 		o, err := pg.RunModule(env, files)
